@@ -55,99 +55,104 @@ func init() {
 					continue
 				}
 				rel, kind, fault := rel, kind, fault
-				tiers := ""
-				if fault == "kill-target" && kind != "pid" {
-					tiers = "thorough"
-				}
-				if fault == "peer-stops" && kind != "pid" && kind != "node" && kind != "event" {
-					tiers = "thorough"
-				}
-				harn.Register(harn.Scenario{Property: "C14", Name: fmt.Sprintf("remote-%s-%s-%s", rel, kind, fault), Tiers: tiers, Run: func(c *harn.Ctx) *harn.Result {
-					qb, tb := 1, 2
-					if kind == "node" && fault == "cut" {
-						qb, tb = 2, 3 // the request must land inside the unregistration of the connection, after the cut: two deviations
+				for _, prop := range []string{"C14", "C04"} {
+					tiers := ""
+					if fault == "kill-target" && kind != "pid" && prop == "C14" {
+						tiers = "thorough"
 					}
-					return harn.Explore(c, harn.Sched{QuickBound: qb, ThoroughBound: tb, Preempt: false, Cache: true, HorizonS: 30, Body: netBody(netOpts{}, func(nw *NetWorld) {
-						nw.b.ex.Data["kind"] = kind
-						t := nw.b.spawnTarget("T", "tname", "tev")
-						o := remoteObserver(nw.a, "L")
-						nw.connect()
-						if nw.ex.Failed() {
-							return
+					if fault == "peer-stops" && kind != "pid" && kind != "node" && kind != "event" {
+						tiers = "thorough"
+					}
+					if prop == "C04" && fault != "kill-target" {
+						continue // C04: a request racing with the disappearance of the (remote) target itself, every kind of target
+					}
+					harn.Register(harn.Scenario{Property: prop, Name: fmt.Sprintf("remote-%s-%s-%s", rel, kind, fault), Tiers: tiers, Run: func(c *harn.Ctx) *harn.Result {
+						qb, tb := 1, 2
+						if kind == "node" && fault == "cut" {
+							qb, tb = 2, 3 // the request must land inside the unregistration of the connection, after the cut: two deviations
 						}
-						var reqErr error
-						asked := false
-						nw.ex.Thread("REQ", func() {
-							nw.a.n.Send(nw.a.pids["L"], doMsg{func(p *probe) error {
-								if kind == "node" {
-									if rel == "link" {
-										reqErr = p.LinkNode(nw.b.n.Name())
+						return harn.Explore(c, harn.Sched{QuickBound: qb, ThoroughBound: tb, Preempt: false, Cache: true, HorizonS: 30, Body: netBody(netOpts{}, func(nw *NetWorld) {
+							nw.b.ex.Data["kind"] = kind
+							t := nw.b.spawnTarget("T", "tname", "tev")
+							o := remoteObserver(nw.a, "L")
+							nw.connect()
+							if nw.ex.Failed() {
+								return
+							}
+							var reqErr error
+							asked := false
+							nw.ex.Thread("REQ", func() {
+								nw.a.n.Send(nw.a.pids["L"], doMsg{func(p *probe) error {
+									if kind == "node" {
+										if rel == "link" {
+											reqErr = p.LinkNode(nw.b.n.Name())
+										} else {
+											reqErr = p.MonitorNode(nw.b.n.Name())
+										}
 									} else {
-										reqErr = p.MonitorNode(nw.b.n.Name())
+										reqErr = request(p, rel, kind, t)
 									}
-								} else {
-									reqErr = request(p, rel, kind, t)
+									asked = true
+									return nil
+								}})
+							})
+							nw.ex.ThreadLow("FAULT", func() {
+								switch fault {
+								case "cut":
+									nw.links[0].ca.Close()
+								case "peer-stops":
+									nw.b.n.Stop()
+								default:
+									nw.b.n.Kill(t.pid)
 								}
-								asked = true
-								return nil
-							}})
-						})
-						nw.ex.ThreadLow("FAULT", func() {
-							switch fault {
-							case "cut":
-								nw.links[0].ca.Close()
-							case "peer-stops":
-								nw.b.n.Stop()
-							default:
-								nw.b.n.Kill(t.pid)
-							}
-						})
-						nw.Check = func() {
-							pre := "exit:"
-							if rel == "monitor" {
-								pre = "down:"
-							}
-							tk := "node:" + string(nw.b.n.Name())
-							if kind != "node" {
-								tk = targetKey(kind, t)
-							}
-							want := pre + tk + ":"
-							reason := "no connection"
-							if fault == "kill-target" {
-								reason = "kill"
-							}
-							n := 0
-							for _, x := range o.notifs {
-								if strings.HasPrefix(x, want) {
+							})
+							nw.Check = func() {
+								pre := "exit:"
+								if rel == "monitor" {
+									pre = "down:"
+								}
+								tk := "node:" + string(nw.b.n.Name())
+								if kind != "node" {
+									tk = targetKey(kind, t)
+								}
+								want := pre + tk + ":"
+								reason := "no connection"
+								if fault == "kill-target" {
+									reason = "kill"
+								}
+								n := 0
+								for _, x := range o.notifs {
+									if strings.HasPrefix(x, want) {
+										n++
+										// a node that stops gracefully first shuts its processes down: a target that ends before
+										// the connection does is reported with its own reason ('shutdown'), which the statement allows
+										if !strings.HasSuffix(x, ":"+reason) && !(fault == "kill-target" && strings.HasSuffix(x, ":no connection")) &&
+											!(fault == "peer-stops" && kind != "node" && strings.HasSuffix(x, ":shutdown")) {
+											nw.ex.Fail("wrong-reason", "notification %q, expected reason %q", x, reason)
+										}
+									} else {
+										nw.ex.Fail("foreign-notification", "observer received %q, which it never asked for", x)
+									}
+								}
+								// the observer may have been terminated by an untrapped exit instead: count it
+								if r := nw.a.recs["L"]; len(r.term) > 0 {
 									n++
-									// a node that stops gracefully first shuts its processes down: a target that ends before
-									// the connection does is reported with its own reason ('shutdown'), which the statement allows
-									if !strings.HasSuffix(x, ":"+reason) && !(fault == "kill-target" && strings.HasSuffix(x, ":no connection")) &&
-										!(fault == "peer-stops" && kind != "node" && strings.HasSuffix(x, ":shutdown")) {
-										nw.ex.Fail("wrong-reason", "notification %q, expected reason %q", x, reason)
-									}
-								} else {
-									nw.ex.Fail("foreign-notification", "observer received %q, which it never asked for", x)
 								}
+								switch {
+								case !asked:
+									nw.ex.Fail("request-never-returned", "the %s request on the remote %s never returned (requester state: blocked)", rel, kind)
+								case reqErr == nil && n == 0:
+									nw.ex.Fail("request-ok-no-notification", "%s on remote %s was acknowledged, then the %s happened and the requester was never notified", rel, kind, fault)
+								case reqErr != nil && n > 0:
+									nw.ex.Fail("request-failed-but-notified", "%s on remote %s returned %v but %d notification(s) arrived", rel, kind, reqErr, n)
+								case n > 1:
+									nw.ex.Fail("notified-twice", "%s on remote %s: %d notifications %v", rel, kind, n, o.notifs)
+								}
+								nw.Out("req=%v notifs=%v", reqErr, o.notifs)
 							}
-							// the observer may have been terminated by an untrapped exit instead: count it
-							if r := nw.a.recs["L"]; len(r.term) > 0 {
-								n++
-							}
-							switch {
-							case !asked:
-								nw.ex.Fail("request-never-returned", "the %s request on the remote %s never returned (requester state: blocked)", rel, kind)
-							case reqErr == nil && n == 0:
-								nw.ex.Fail("request-ok-no-notification", "%s on remote %s was acknowledged, then the %s happened and the requester was never notified", rel, kind, fault)
-							case reqErr != nil && n > 0:
-								nw.ex.Fail("request-failed-but-notified", "%s on remote %s returned %v but %d notification(s) arrived", rel, kind, reqErr, n)
-							case n > 1:
-								nw.ex.Fail("notified-twice", "%s on remote %s: %d notifications %v", rel, kind, n, o.notifs)
-							}
-							nw.Out("req=%v notifs=%v", reqErr, o.notifs)
-						}
-					})})
-				}})
+						})})
+					}})
+				}
 			}
 		}
 	}
@@ -189,6 +194,81 @@ func init() {
 				}
 			})})
 		}})
+	}
+
+	// ---- a process spawned on the other node with LinkChild: the parent is told of its termination with the remote
+	// reason while connected, and of the lost connection otherwise ---------------------------------------------------
+	for _, how := range []string{"RemoteSpawn", "RemoteSpawnRegister"} {
+		for _, fault := range []string{"kill-child", "child-fails", "cut"} {
+			how, fault := how, fault
+			harn.Register(harn.Scenario{Property: "C14", Name: fmt.Sprintf("remote-spawn-linkchild-%s-%s", strings.ToLower(how), fault), Run: func(c *harn.Ctx) *harn.Result {
+				return harn.Explore(c, harn.Sched{QuickBound: 1, ThoroughBound: 2, Preempt: false, Cache: true, HorizonS: 30, Body: netBody(netOpts{}, func(nw *NetWorld) {
+					cr := &rec{name: "CH"}
+					nw.b.recs["CH"] = cr
+					if err := nw.b.n.network.EnableSpawn("rproc", func() gen.ProcessBehavior {
+						return &probe{cfg: probeCfg{rec: cr, onMsg: func(p *probe, from gen.PID, m any) error {
+							if m == "fail" {
+								return errE
+							}
+							return nil
+						}}}
+					}); err != nil {
+						panic(err)
+					}
+					o := remoteObserver(nw.a, "L")
+					nw.connect()
+					if nw.ex.Failed() {
+						return
+					}
+					var child gen.PID
+					var reqErr error
+					nw.a.Do("L", func(p *probe) error {
+						if how == "RemoteSpawn" {
+							child, reqErr = p.RemoteSpawn(nw.b.n.Name(), "rproc", gen.ProcessOptions{LinkChild: true})
+						} else {
+							child, reqErr = p.RemoteSpawnRegister(nw.b.n.Name(), "rproc", "regname", gen.ProcessOptions{LinkChild: true})
+						}
+						return nil
+					})
+					if reqErr != nil {
+						nw.ex.Fail("harness", "%s failed: %v", how, reqErr)
+						return
+					}
+					nw.ex.Thread("FAULT", func() {
+						switch fault {
+						case "kill-child":
+							nw.b.n.Kill(child)
+						case "child-fails":
+							nw.b.n.Send(child, "fail")
+						default:
+							nw.links[0].ca.Close()
+						}
+					})
+					nw.Check = func() {
+						reason := map[string]string{"kill-child": "kill", "child-fails": "E", "cut": "no connection"}[fault]
+						want := fmt.Sprintf("exit:pid:%d:%s", child.ID, reason)
+						n := 0
+						for _, x := range o.notifs {
+							if x == want {
+								n++
+							} else {
+								nw.ex.Fail("wrong-reason", "the parent of the remotely spawned child %s received %q, expected %q", child, x, want)
+							}
+						}
+						if r := nw.a.recs["L"]; len(r.term) > 0 {
+							n++
+						}
+						switch {
+						case n == 0:
+							nw.ex.Fail("request-ok-no-notification", "%s with LinkChild returned %s; then %s happened and the parent was never notified", how, child, fault)
+						case n > 1:
+							nw.ex.Fail("notified-twice", "%s with LinkChild, %s: %d notifications %v", how, fault, n, o.notifs)
+						}
+						nw.Out("notifs=%v", o.notifs)
+					}
+				})})
+			}})
+		}
 	}
 
 	// ---- requests in flight when the connection is lost --------------------------------------------
